@@ -288,23 +288,30 @@ def plan_gc(run, prop, tier):
         e1_sodg(run, acc, "D3")
         if prop == "C01":
             e1_safe(run, acc, "B3")
-    # E2
+    # E2: every property of the family sees the same instances (a change is attributed by the lenses, not by the plan)
     ts = e2_product(run, acc, "A3", [(2, 3, 0), (1, 4, 1), (16, 256, 2)] if tier == "quick" else [(2, 3, 0), (1, 4, 1), (16, 256, 2), (3, 7, 1), (8, 64, 0)])
     e2_product(run, acc, "C2", [(2, 2, 0), (4, 9, 1)])
-    if prop in ("C03", "C02", "C04") or tier == "thorough":
-        e2_product(run, acc, "D3", [(1, 3, 2)] if tier == "quick" else [(1, 3, 2), (1, 5, 0)])
-    if prop in ("C03",) or tier == "thorough":
-        e2_product(run, acc, "B3", [(1, 3, 1)])
+    e2_product(run, acc, "D3", [(1, 3, 2)] if tier == "quick" else [(1, 3, 2), (1, 5, 0)])
+    e2_product(run, acc, "B3", [(1, 3, 1)])
     e2_product(run, acc, "F4a", [(1, 4, 1)])
-    if prop in ("C01", "C02", "C06") or tier == "thorough":
-        e2_product(run, acc, "F4b", [(2, 4, 0)])
-        e2_product(run, acc, "F5", [(1, 5, 2)])
+    e2_product(run, acc, "F4b", [(2, 4, 0)])
+    e2_product(run, acc, "F5", [(1, 5, 2)])
     if tier == "thorough":
         e2_product(run, acc, "F4c", [(1, 4, 0)], budget=40000000)
-    if tier == "thorough":
         e2_product(run, acc, "E3", [(2, 3, 0)], budget=40000000)
+    # the same obligations hold on copies: clone() / save+load in the alphabet (the copy replaces the object), twins in E3
+    if prop != "C05":
+        e2_product(run, acc, "A3", [(2, 3, 1)], extra_ops=("clone", "reload"))
+        e2_product(run, acc, "F4a", [(1, 4, 0)], extra_ops=("clone", "reload"))
     # E3
     e3_drive(run, acc, gc_plan(tier, s))
+    if prop != "C05":
+        e3_drive(run, acc, twin_plan(tier, s)[:2] if tier == "quick" else twin_plan(tier, s), label="E3 twins")
+    if prop in ("C01", "C02", "C03"):
+        # merge and slice are calls like any other for these properties (C01 names them): scenarios with reads, long traces
+        e4_merge(run, acc, "trees g<=2 x h<=3, reads", cfg_mergegen(6, [0, 1], [1, 2, 3], 2, 3, 0, True), [(2, 6, 0)])
+        mp = [dict(profile="merge", n=2, cap=32, steps=1200, seed=s * 100 + 31, window=12), dict(profile="slice", n=4, cap=16, steps=800, seed=s * 100 + 21, window=12)]
+        e3_drive(run, acc, mp, label="E3 merges and slices")
     if prop in ("C06", "C02", "C01"):
         sh = shapes_mod.shapes(ts, 6 if tier == "quick" else 7, limit=190 if tier == "quick" else 1500)
         acc.notes["gc_cycle_shapes"] = len(sh)
@@ -1011,6 +1018,7 @@ def warm(run):
     for inst, extra in (("A3", ()), ("C2", ()), ("D3", ()), ("B3", ()), ("F4a", ()), ("F4b", ()), ("F5", ()),
                         ("A3", ("clone",)), ("A3", ("reload",)), ("C2", ("clone",)), ("C2", ("reload",)),
                         ("F4a", ("clone",)), ("F4a", ("reload",)), ("F5", ("clone",)), ("F5", ("reload",)),
+                        ("A3", ("clone", "reload")), ("F4a", ("clone", "reload")),
                         ("C2", ("slice",)), ("G3", ("slice",)), ("A3", ("inspect",)), ("C2", ("inspect",)), ("G3", ("inspect",)),
                         ("F4a", ("inspect",)), ("G3", ())):
         vlib.emit_ts(run, emit_module(inst), cfg_emit(inst, extra))
